@@ -8,6 +8,7 @@ directory.  Every stub invocation records its argv and what its stdin/stdout are
 and wraps its input as role[...]; the monitor compares the recorded invocations, the pipe
 topology, the produced files and their contents with vf.drv.model (an executable reading of
 cproc(1))."""
+import subprocess
 import os
 import random
 
@@ -293,10 +294,63 @@ def _worker(args):
     return out
 
 
+LDSO = {('gnu', 'x86_64'): '/lib64/ld-linux-x86-64.so.2', ('gnu', 'aarch64'): '/lib/ld-linux-aarch64.so.1', ('gnu', 'riscv64'): '/lib/ld-linux-riscv64-lp64d.so.1',
+        ('musl', 'x86_64'): '/lib/ld-musl-x86_64.so.1', ('musl', 'aarch64'): '/lib/ld-musl-aarch64.so.1', ('musl', 'riscv64'): '/lib/ld-musl-riscv64.so.1'}
+
+
+def configure_cases(ck, wd):
+    """the command lines of the driver start in config.h: what `configure` writes for documented option sets (README: --host, --target, --with-*)
+    is compared with the tools, prefixes and loader those options name"""
+    import itertools
+    import shutil
+    d = os.path.join(wd, 'cfgmon')
+    os.makedirs(d, exist_ok=True)
+    shutil.copy(os.path.join(common.REPO, 'configure'), d)
+    triples = ['x86_64-linux-gnu', 'aarch64-linux-gnu', 'riscv64-linux-musl', 'x86_64-linux-musl', 'aarch64-linux-musl', 'riscv64-linux-gnu']
+    n = 0
+    for host, target in itertools.product(triples[:3], triples):
+        for named in ((), ('cpp',), ('as', 'ld'), ('cpp', 'qbe', 'as', 'ld')):
+            for ldso in (None, '', '/opt/custom/ld.so'):
+                n += 1
+                if (n * 7 + len(named)) % 3 and host != target and ldso is None and named:
+                    continue      # thin out the least interesting third
+                args = ['--host=' + host, '--target=' + target, '--with-gcc-libdir=/vf/gcclib']
+                args += ['--with-%s=/tools/my-%s' % (t, t) for t in named]
+                if ldso is not None:
+                    args.append('--with-ldso=' + ldso)
+                env = {k: v for k, v in os.environ.items() if not k.startswith('DEFAULT_')}
+                p = subprocess.run(['sh', './configure'] + args, cwd=d, env=env, stdout=subprocess.PIPE, stderr=subprocess.PIPE)
+                ck.evaluations += 1
+                if p.returncode != 0:
+                    ck.violation('configure:fails', 'configure %s fails: %s' % (' '.join(args), p.stderr[:200].decode('latin-1')), {'cmdline.txt': ' '.join(args)})
+                    continue
+                cfg = drv.parse_config(open(os.path.join(d, 'config.h')).read())
+                pre = target + '-' if host != target else ''
+                want = {'preprocesscmd': '/tools/my-cpp' if 'cpp' in named else pre + 'cpp', 'codegencmd': '/tools/my-qbe' if 'qbe' in named else 'qbe',
+                        'assemblecmd': '/tools/my-as' if 'as' in named else pre + 'as', 'linkcmd': '/tools/my-ld' if 'ld' in named else pre + 'ld'}
+                probs = ['%s starts with %r, the options name %r' % (k, cfg[k][0], v) for k, v in want.items() if cfg[k][:1] != [v]]
+                libc = 'musl' if 'musl' in target else 'gnu'
+                loader = LDSO[(libc, target.split('-')[0])] if ldso is None else ldso
+                lk = cfg['linkcmd']
+                has = [lk[i + 1] for i in range(len(lk) - 1) if lk[i] == '--dynamic-linker']
+                if has != ([loader] if loader else []):
+                    probs.append('linkcmd names the dynamic linker %r, the options give %r' % (has, loader or 'none'))
+                if cfg['target'] != target:
+                    probs.append('target is %r' % cfg['target'])
+                if libc == 'gnu' and ['-L', '/vf/gcclib'] != [x for x in lk if x in ('-L', '/vf/gcclib')][:2]:
+                    probs.append('linkcmd lacks -L of the given gcc libdir: %r' % lk)
+                ck.decided += 1
+                ck.count('kind', 'configure')
+                ck.distinct.add(('configure', host == target, named, ldso))
+                for pr in probs:
+                    ck.violation('configure:' + pr.split(' ')[0], 'configure %s: %s' % (' '.join(args), pr), {'cmdline.txt': ' '.join(args), 'config.h': open(os.path.join(d, 'config.h')).read()})
+
+
 def run(tier):
     ck = common.Check(PID, tier)
     rng = common.rng(PID)
     wd = common.scratch()
+    configure_cases(ck, wd)
     for t in drv.TRIPLES:
         drv.build(t)
     per = 60 if tier == 'quick' else 1500
